@@ -11,7 +11,7 @@ def run(ctx):
     text_nested(ctx)
     print_numbers(ctx)
     from ..scen_print import print_string
-    print_string(ctx)          # nested values in a field are printed by the JSON string printer (utf8 on): control characters stay escaped
+    print_string(ctx, utf8=True)          # nested values in a field are printed by the JSON string printer (utf8 on): control characters stay escaped
     from ..scen_misc import titles
     titles(ctx)
     from ..scen_expr import selection_name
